@@ -52,7 +52,7 @@ IsLs(e)  == e.op \in {"ParStep", "ParEnd", "LsOpen", "LsSync", "LsReplicaSync", 
 IsChk(e) == e.op \in {"LsCheckpoint", "CkStart", "CkStep"}
 ChkFailed(e) == IsChk(e) /\ e.res \notin {"ok", "skip", "at"}
 IsSync(e) == e.op \in {"LsSync", "LsSyncAndWait"}
-IsRetention(e) == e.op \in {"SnapRetention", "L0Retention", "RetByTXID", "Compact"}
+IsRetention(e) == e.op \in {"SnapRetention", "L0Retention", "RetByTXID", "Compact", "L0RetentionAbs", "SnapRetentionAbs"}
 
 \* level-0 files litestream CREATED in a step (a baseline fetched from the replica by checkDatabaseBehindReplica is a copy, not a creation)
 Created(e) == SelectSeq(e.newl0, LAMBDA f : ~f.fetched)
@@ -107,7 +107,7 @@ Next ==
           /\ floor' = IF (destroyed \/ stateLost) /\ ~lost0 /\ ~reset0 THEN p.rpos ELSE floor
           /\ t0' = t0
           /\ lastAck' = IF e.ack THEN l + 1 ELSE lastAck
-          /\ retained' = (retained \/ (e.op \in {"SnapRetention", "L0Retention", "RetByTXID"} /\ e.res # "skip"))
+          /\ retained' = (retained \/ (e.op \in {"SnapRetention", "L0Retention", "RetByTXID", "L0RetentionAbs", "SnapRetentionAbs"} /\ e.res # "skip"))
           /\ pendLoss' = IF IsChk(e) THEN (IF e.res = "at" THEN (pendLoss \/ chkLoss) ELSE FALSE) ELSE pendLoss
           /\ sameSince' = IF Len(Created(e)) > 0 THEN FALSE
                            ELSE (IF Len(Created(p)) > 0 THEN FALSE ELSE sameSince) \/ (e.op = "LsOpen" /\ e.arg = "same" /\ e.res = "ok" /\ lost0)
